@@ -626,6 +626,10 @@ class Interp:
         if isinstance(v, Sym) and v.hint == "int":
             return LinV(F.lin_term(v.label))
         if isinstance(v, ElemV) and v.role in ("pos", "int"):
+            # the element at position p of range(lo, hi) is lo + p
+            if v.role == "pos" and isinstance(v.var, tuple) and len(v.var) == 3 and v.var[0] == "at" and isinstance(v.var[1], tuple) and v.var[1][:1] == ("range",) \
+                    and len(v.var[1]) == 3 and isinstance(v.var[2], tuple) and v.var[2][:1] == ("lin",):
+                return LinV(F.lin_add(v.var[1][1], v.var[2][1]))
             return LinV(F.lin_term(("elem", v.var, v.role)))
         return None
 
@@ -654,6 +658,25 @@ class Interp:
                     return Const(x ** y)
             except Exception:
                 pass
+        if op == "BitAnd":
+            # (int(bits, 2) >> k) & 1: bit k of the number = the character at position len(bits)-1-k, as an integer
+            for x, y in ((a, b), (b, a)):
+                if isinstance(y, Const) and y.value == 1 and isinstance(x, Sym) and isinstance(x.label, tuple) and x.label[:2] == ("binop", "RShift") \
+                        and isinstance(x.label[2], tuple) and x.label[2][:1] == ("bits-of",):
+                    w = x.label[2][1]
+                    kd = x.label[3]
+                    if isinstance(kd, tuple) and kd[:1] == ("c",) and isinstance(kd[1], int):
+                        kl = F.lin_const(kd[1])
+                    elif isinstance(kd, tuple) and kd[:1] == ("lin",):
+                        kl = kd[1]
+                    elif isinstance(kd, tuple) and len(kd) == 3 and kd[0] == "elem" and kd[2] == "pos" and isinstance(kd[1], tuple) and len(kd[1]) == 3 and kd[1][0] == "at" \
+                            and isinstance(kd[1][1], tuple) and kd[1][1][:1] == ("range",) and len(kd[1][1]) == 3 and isinstance(kd[1][2], tuple) and kd[1][2][:1] == ("lin",):
+                        kl = F.lin_add(kd[1][1][1], kd[1][2][1])  # the element at position p of range(lo, hi) is lo + p
+                    else:
+                        kl = F.lin_term(kd)
+                    wvar = w[1] if isinstance(w, tuple) and w[:1] == ("elem",) else w
+                    pos = F.lin_add(F.lin_add(F.lin_term(("len", wvar)), F.lin_const(-1)), kl, -1)
+                    return LinV(F.lin_term(("int", ("elem", ("at", w, ("lin", pos)), "plain"))), "py")
         if op == "Add":
             # list concatenation: a new list holding the elements of both (neither operand is changed)
             def listlike(x):
